@@ -1,6 +1,6 @@
-// capacities [1, 2] of the C10/C11 harness
+// capacities [1, 2] (both objects) of the C10/C11 harness
 #include "c10_impl.hpp"
 namespace c10 {
-std::string run_1(const std::vector<std::string>& w) { return run<1>(w); }
-std::string run_2(const std::vector<std::string>& w) { return run<2>(w); }
+std::string run_1_1(const std::vector<std::string>& w) { return run<1, 1>(w); }
+std::string run_2_2(const std::vector<std::string>& w) { return run<2, 2>(w); }
 }
